@@ -602,6 +602,14 @@ impl Campaign for C07 {
         let targets = ["\"abcdef\"", "'abcdef'", "(1 2 3 4)", ":ka.kb.kc.kd", "(10 <> 20 <> 30)", "(:ka = 1, :kb = 2)"];
         let ranges = ["(1..2)", "(0..9)", "(2..0)", "(3..3)", "(--1..1)", "(1 >..< 1)"];
         let mut values: Vec<String> = vec![];
+        // a range with an astronomically large bound only where the consumer indexes by it rather than
+        // walking it (slices of lists walk it: that is unbounded work, see the isolated findings)
+        for t in ["\"abcdef\"", "'abcdef'", ":ka.kb.kc.kd", "(10 <> 20 <> 30)"] {
+            let s = format!("({} <~ (0 .. 1000000000000000000000.0))", t);
+            values.push(s.clone());
+            values.push(format!("({} <> 5)", s));
+            values.push(format!("({},)", s));
+        }
         for t in targets {
             for r in ranges {
                 let s = format!("({} <~ {})", t, r);
@@ -649,12 +657,22 @@ impl Campaign for C07 {
         v
     }
 
+    fn isolated(&self) -> Vec<Sc07> {
+        // unbounded work inside ONE step (the step budget cannot bound it): recorded findings, see DESIGN §7.2
+        let mk = |basic: bool, src: &str| Sc07 { basic, knobs: Knobs::default(), src: src.to_string(), input: Val::Unit, script: HostScript::default(), compact_every: 0, after_err: AfterErr::Nothing, max_steps: 200, fault: "none (isolated seed)".into() };
+        vec![
+            mk(false, "(33 .. 2147483646) ~# (,)"),
+            mk(true, "(33 .. 2147483646) ~# (,)"),
+            mk(false, "((1 2 3) <~ (0 .. 1000000000000000000000.0)) ~# (,)"),
+        ]
+    }
+
     fn haystack(&self, sc: &Sc07) -> String {
         format!("<<{}>> impl={}", sc.src, if sc.basic { "basic" } else { "simple" })
     }
 
     fn rule(&self) -> String {
-        "runs come in groups that share one base = (program, input, host script): the program is a random full-language program seeded with boundary literals (i32 limits, shift counts 31/32/33, huge/tiny floats, empty and multi-byte text), or a template aimed at value-dependent failures (operator x operand-kind pairs, indexes out of range / negative / fractional, reversed ranges and slices, values nested 5..200 deep built by a loop and then cast / compared / concatenated), with host-provided operand values of every data type incl. ones no literal produces (slice, partial, external, type, expression, concatenation, symbol list, NaN / infinite floats). Variants of a group: fault-free on each data implementation, compaction after every step, random growth knobs, exotic inputs, the j-th callback failing / declining / churning / lying (no push, two pushes) / returning an exotic value, and the data block refusing the k-th slot allocated by the run for k spread over the whole run (every k when the run allocates fewer slots than the group has F1 variants: 4 quick — further placements come from further bases —, 428 thorough). After an error the host pops the frames and (in most variants) starts the program again in the same object, optionally after optimize. Verdict: no step may unwind; a shard that dies or stalls is an abort. distinct = distinct scenario hash; non-trivial = at least one instruction was stepped".to_string()
+        "explicit scenarios (complete on every invocation): a value-shape matrix of ~113 000 programs — every sliceable kind x ranges in / out of range / reversed / empty, bare and nested one level inside another container, plus 26 further value kinds, fed to 25 unary / structural consumers and 14 binary operators against 11 second operands in both orders, on both implementations. Seeded: runs come in groups that share one base = (program, input, host script): the program is a random full-language program seeded with boundary literals (i32 limits, shift counts 31/32/33, huge/tiny floats, empty and multi-byte text), or a template aimed at value-dependent failures (operator x operand-kind pairs, indexes out of range / negative / fractional, reversed ranges and slices, values nested 5..200 deep built by a loop and then cast / compared / concatenated), with host-provided operand values of every data type incl. ones no literal produces (slice, partial, external, type, expression, concatenation, symbol list, NaN / infinite floats). Variants of a group: fault-free on each data implementation, compaction after every step, random growth knobs, exotic inputs, the j-th callback failing / declining / churning / lying (no push, two pushes) / returning an exotic value, and the data block refusing the k-th slot allocated by the run for k spread over the whole run (every k when the run allocates fewer slots than the group has F1 variants: 4 quick — further placements come from further bases —, 428 thorough). After an error the host pops the frames and (in most variants) starts the program again in the same object, optionally after optimize. Verdict: no step may unwind; a shard that dies or stalls is an abort. distinct = distinct scenario hash; non-trivial = at least one instruction was stepped".to_string()
     }
 
     fn components(&self) -> Value {
